@@ -108,9 +108,14 @@ func Explain(c Case) (out Case) {
 		}
 		return pb
 	}
-	for _, e := range objs(c, "ev") {
+	// one Problem object for the whole case: a caller may run several extractions / checks on it
+	shared := parse()
+	for ei, e := range objs(c, "ev") {
 		r := copyCase(e)
-		pb := parse()
+		pb := shared
+		if boolean(c, "freshProblem") && ei > 0 {
+			pb = parse()
+		}
 		before := dumpExplain(pb)
 		switch str(e, "op") {
 		case "mus":
